@@ -488,7 +488,9 @@ func (eng *Engine) inheritedContracts(fn *ssa.Function) []inherited {
 	var out []inherited
 	var keys []string
 	for k, fc := range eng.CS.Funcs {
-		if fc.Iface && strings.HasSuffix(k, "."+fn.Name()) {
+		if fc.Iface && strings.HasSuffix(k, "."+fn.Name()) && fc.Options["abstract"] == "" {
+			// (an interface contract marked "option abstract" only names the result of dynamic dispatch by an
+			// uninterpreted function; there is nothing for an implementation to prove)
 			keys = append(keys, k)
 		}
 	}
